@@ -54,12 +54,19 @@ class Lock:
         self.f.close()
 
 
+# Each property has its own driver executable (lean/Driver/MainCXX.lean), so that a
+# check's Lean build depends only on the Generated modules of that property: a
+# failed extraction left behind by (or belonging to) another property cannot break
+# this one.  `Ctx.__init__` selects it; the all-in-one `rotov-driver` remains for setup.
+DRIVER_NAME = "rotov-driver"
+
+
 def env():
     e = dict(os.environ)
     e["CARGO_NET_OFFLINE"] = "true"
     e["CARGO_TARGET_DIR"] = TARGET
     e.setdefault("RUST_BACKTRACE", "0")
-    e["ROTOV_DRIVER"] = os.path.join(LEAN, ".lake", "build", "bin", "rotov-driver")
+    e["ROTOV_DRIVER"] = os.path.join(LEAN, ".lake", "build", "bin", DRIVER_NAME)
     return e
 
 
@@ -79,6 +86,9 @@ def run(cmd, cwd=None, timeout=None, input=None):
 
 class Ctx:
     def __init__(self, pid, tier, seed):
+        global DRIVER_NAME
+        if os.path.exists(os.path.join(LEAN, "Driver", f"Main{pid.upper()}.lean")):
+            DRIVER_NAME = f"rotov-driver-{pid.lower()}"
         self.pid = pid
         self.tier = tier
         self.seed = seed
@@ -180,6 +190,7 @@ class Ctx:
         return ok
 
     def lake_build(self, targets, timeout=3000):
+        targets = [DRIVER_NAME if t == "rotov-driver" else t for t in targets]
         with Lock("lake"):
             rc, out = run(["lake", "build"] + targets, cwd=LEAN, timeout=timeout)
         return rc == 0, out
@@ -190,7 +201,8 @@ class Ctx:
         names, examples = self.theorem_names(props_module)
         self.lean_files_clean([props_module] + list(extra_modules))
         ok, out = self.lake_build([props_module] + list(extra_targets))
-        self.checker_cmds.append(f"cd /verif/lean && lake build {props_module} " + " ".join(extra_targets))
+        self.checker_cmds.append(f"cd /verif/lean && lake build {props_module} " + " ".join(
+            DRIVER_NAME if t == "rotov-driver" else t for t in extra_targets))
         if not ok:
             # which theorems failed?
             errs = re.findall(r"error: ([^\s:]+\.lean):(\d+):(\d+): (.*)", out)
